@@ -132,6 +132,7 @@ func (c *Client) Call(ctx Context, method string, arg, resp interface{}) error {
 		return respErr
 	}
 
+	ctx.SetResponseHeaders(respHeaders)
 	return nil
 }
 
